@@ -56,25 +56,29 @@ theorem sanitize_leaves (c : PCtx) (ip : List String) : ∀ (fs done : List Fiel
     rw [hadd, merge_nil]
     exact this
 
-/-- the hypotheses describing the family (what the merged schema and the routing table say) -/
-structure Fam (c : PCtx) (A B T q : String) (fs : List FieldSpec) : Prop where
+/-- the hypotheses about the object type `T` and its leaf fields (shared with the mutation family
+    of C06: nothing here mentions the root type) -/
+structure FamT (c : PCtx) (A B T q : String) (fs : List FieldSpec) : Prop where
   hAB : A ≠ B
-  hAint : A ≠ internalService
-  hBint : B ≠ internalService
-  hqb : isBuiltinName q = false
-  hqn : q ≠ "node"
   hTroot : isRootName T = false
   hne : fs ≠ []
   hnd : (namesOf fs).Nodup
   hfb : ∀ n ∈ namesOf fs, isBuiltinName n = false
   hfid : ∀ n ∈ namesOf fs, n ≠ "id"
   hschemaT : ∃ td, c.schema.type? T = some td ∧ td.kind = .object
-  hschemaQ : ∃ td, c.schema.type? "Query" = some td ∧ td.kind = .object
-  tumQn : c.tum.isNode? "Query" = some false
-  tumQq : c.tum.get? "Query" q = some A
   tumTn : c.tum.isNode? T = some true
   tumTid : c.tum.get? T "id" = none
   tumTf : ∀ f ∈ fs, c.tum.get? T f.1 = some (if f.2.2 then B else A)
+
+/-- the hypotheses describing the family (what the merged schema and the routing table say) -/
+structure Fam (c : PCtx) (A B T q : String) (fs : List FieldSpec) : Prop extends FamT c A B T q fs where
+  hAint : A ≠ internalService
+  hBint : B ≠ internalService
+  hqb : isBuiltinName q = false
+  hqn : q ≠ "node"
+  hschemaQ : ∃ td, c.schema.type? "Query" = some td ∧ td.kind = .object
+  tumQn : c.tum.isNode? "Query" = some false
+  tumQq : c.tum.get? "Query" q = some A
   hurlsA : A ∈ c.tum.urls
   hurlsNd : c.tum.urls.Nodup
   hkind : c.opKind = .query
